@@ -117,6 +117,45 @@ FIXES = [
  ('C18-set-param', 'model.py',
   "        self._input_parameters.get(key).value = value\n",
   "        self._input_parameters.get(key).set_value(value)\n"),
+ # C14: uniforms that feed log()/division are drawn from (0,1)
+ ('C14-helper', 'distributions.py',
+  "    def _set_stream(self, stream: StreamInterface):\n        \"\"\"Internal method that can be overridden to initialize the \n",
+  "    def _next_positive_float(self) -> float:\n        \"\"\"\n        Return the next pseudo-random number on the open interval (0, 1) \n        from the stream, for use in expressions such as log(u) that are not\n        defined for u = 0. Numbers larger than 0 are returned unchanged.\n        \"\"\"\n        u: float = self._stream.next_float()\n        while u == 0.0:\n            u = self._stream.next_float()\n        return u\n\n    def _set_stream(self, stream: StreamInterface):\n        \"\"\"Internal method that can be overridden to initialize the \n"),
+ ('C14-exp', 'distributions.py',
+  "        return -self._mean * math.log(self._stream.next_float())\n",
+  "        return -self._mean * math.log(self._next_positive_float())\n"),
+ ('C14-erlang', 'distributions.py',
+  "                product *= self._stream.next_float()\n",
+  "                product *= self._next_positive_float()\n"),
+ ('C14-gamma-lt1', 'distributions.py',
+  "                p: float = b * self._stream.next_float()\n",
+  "                p: float = b * self._next_positive_float()\n"),
+ ('C14-gamma-gt1', 'distributions.py',
+  "                u1: float = self._stream.next_float()\n                u2: float = self._stream.next_float()\n                #  step 2.\n",
+  "                u1: float = self._next_positive_float()\n                u2: float = self._next_positive_float()\n                #  step 2.\n"),
+ ('C14-gamma-eq1', 'distributions.py',
+  "            return -self._scale * math.log(self._stream.next_float())\n",
+  "            return -self._scale * math.log(self._next_positive_float())\n"),
+ ('C14-weibull', 'distributions.py',
+  "        return (self._beta * math.pow(-math.log(self._stream.next_float()), \n",
+  "        return (self._beta * math.pow(-math.log(self._next_positive_float()), \n"),
+ ('C14-geom-u', 'distributions.py',
+  "        u = self._stream.next_float()\n        return math.floor(math.log(u) / self._lnp)\n",
+  "        u = self._next_positive_float()\n        return math.floor(math.log(u) / self._lnp)\n"),
+ ('C14-negbin-u', 'distributions.py',
+  "            u = self._stream.next_float()\n            x += math.floor(math.log(u) / self._lnp)\n",
+  "            u = self._next_positive_float()\n            x += math.floor(math.log(u) / self._lnp)\n"),
+ ('C14-normal-s', 'distributions.py',
+  "        while s >= 1.0:\n",
+  "        while s >= 1.0 or s == 0.0:\n"),
+
+ ('C14-geom-p', 'distributions.py',
+  "        ValueError: when p < 0 or p > 1\n        \"\"\"\n        super().__init__(stream)\n        if not isinstance(p, float):\n            raise TypeError(f\"parameter p {p} is not a float\")\n        if not 0 <= p <= 1:\n            raise ValueError(f\"parameter p {p} not between 0 and 1\")\n        self._p = p\n        self._lnp = math.log(1.0 - self._p)\n",
+  "        ValueError: when p <= 0 or p > 1\n        \"\"\"\n        super().__init__(stream)\n        if not isinstance(p, float):\n            raise TypeError(f\"parameter p {p} is not a float\")\n        if not 0 < p <= 1:\n            raise ValueError(f\"parameter p {p} not larger than 0 and at most 1\")\n        self._p = p\n        # ln(1-p); for p = 1 (success at every trial) the limit -inf is used\n        if p < 1.0:\n            self._lnp = math.log(1.0 - self._p)\n        else:\n            self._lnp = -math.inf\n"),
+ ('C14-negbin-p', 'distributions.py',
+  "        if not 0 <= p <= 1:\n            raise ValueError(f\"parameter p {p} not between 0 and 1\")\n        if s <= 0:\n            raise ValueError(f\"parameter s {s} <= 0\")\n        self._p = p\n        self._s = s\n        # helper variable equal to ln(1-p) to avoid repetitive calculation.\n        self._lnp = math.log(1.0 - self._p)\n",
+  "        if not 0 < p <= 1:\n            raise ValueError(f\"parameter p {p} not larger than 0 and at most 1\")\n        if s <= 0:\n            raise ValueError(f\"parameter s {s} <= 0\")\n        self._p = p\n        self._s = s\n        # helper variable equal to ln(1-p) to avoid repetitive calculation;\n        # for p = 1 (success at every trial) the limit -inf is used\n        if p < 1.0:\n            self._lnp = math.log(1.0 - self._p)\n        else:\n            self._lnp = -math.inf\n"),
+
  # C15
  ('C15-tri', 'distributions.py',
   "        if x >= self._lo and x <= self._mode:\n            return (2.0 * (x - self._lo)",
